@@ -15,6 +15,7 @@ BAD = (-1, "x", [1], True, {"q": 1})
 
 def _schema(with_ct: bool = True):
     item = Schema()
+    item.w = IntField(default=0)
     item.v = IntField(min=0, default=0)
     schema = Schema()
     schema.inc = IncludeField(startdir="/cfg")
@@ -83,7 +84,8 @@ def _state(cfg: Config, sa: bool, sb: bool, sl: bool, si: bool, x: int):
 
 OPS = ("attr", "dotted", "submap", "submap_partial", "sub_wrongtype", "ct_map", "ct_ctor", "l_append", "l_insert",
        "l_setitem", "d_setitem", "d_setdefault", "items_append", "items_setitem", "ctor_kw",
-       "submap_validator", "submap_required", "dotted_submap_validator", "load_tree_nested_validator")
+       "submap_validator", "submap_required", "dotted_submap_validator", "load_tree_nested_validator",
+       "items_setitem_partial", "items_append_partial", "items_insert_partial")
 
 
 def _rejected(op: str, bad_i: int, sa: bool, sb: bool, sl: bool, si: bool, x: int) -> bool:
@@ -128,6 +130,14 @@ def _rejected(op: str, bad_i: int, sa: bool, sb: bool, sl: bool, si: bool, x: in
             if not si:
                 skip("needs an item")
             cfg.items[0] = {"v": bad}
+        elif op == "items_setitem_partial":
+            if not si:
+                skip("needs an item")
+            cfg.items[0] = {"w": 99, "v": bad}   # an acceptable entry first, then the rejected one
+        elif op == "items_append_partial":
+            cfg.items.append({"w": 99, "v": bad})
+        elif op == "items_insert_partial":
+            cfg.items.insert(0, {"w": 99, "v": bad})
         elif op == "ctor_kw":
             schema(a=5, lst=[1], s={"b": bad})
         elif op == "submap_validator":
